@@ -252,7 +252,7 @@ def _run(ctx):
             ctx.count("permutations")
     ctx.exhaustive["all_orders_of_listed_multisets"] = True
     ctx.sample({"sequence": multisets[0], "resolved": [(d.name, str(d.version)) for d in ht.TagList(*mk(multisets[0])).get_dependencies()]})
-    for _ in range(ctx.budget(1500, 120000)):
+    for _ in range(ctx.budget(1500, 1000000)):
         seq = rand_seq(rng, rng.choice([0, 1, 2, 3, 4, 5, 7, 9, 12]))
         check_seq(ctx, seq)
         ctx.case(seq, nontrivial=nontrivial(seq))
